@@ -8,7 +8,9 @@
 #include <aws/common/common.h>
 #include <aws/common/error.h>
 
+#include <ctype.h>
 #include <inttypes.h>
+#include <locale.h>
 #include <signal.h>
 #include <stdarg.h>
 #include <stdbool.h>
@@ -16,6 +18,7 @@
 #include <stdio.h>
 #include <stdlib.h>
 #include <string.h>
+#include <sys/mman.h>
 #include <unistd.h>
 
 #ifdef VH_COV
@@ -161,6 +164,15 @@ static void vh_asan_death(void) {
     vh_die_line(6);
 }
 static void vh_install_handlers(unsigned watchdog_secs) {
+    /* the 'process locale' family (lib/vlib/locale8.py): behave like an application that called setlocale(LC_ALL, "")
+     * under a non-C locale before using the library; the self-test keeps a silently ignored locale from passing as a run */
+    const char *want_locale = getenv("VH_SETLOCALE");
+    if (want_locale && want_locale[0]) {
+        if (!setlocale(LC_ALL, "") || !isalpha(0xE9) || isalpha(0xD7)) {
+            fprintf(stderr, "vh: locale %s could not be selected\n", want_locale);
+            _exit(97);
+        }
+    }
     aws_common_library_init(aws_default_allocator()); /* registers the error-code tables (aws_error_name) */
     int sigs[] = {SIGSEGV, SIGBUS, SIGABRT, SIGFPE, SIGILL, SIGALRM};
     for (size_t i = 0; i < sizeof(sigs) / sizeof(sigs[0]); ++i) {
@@ -170,9 +182,33 @@ static void vh_install_handlers(unsigned watchdog_secs) {
         sigaction(sigs[i], &sa, NULL);
     }
     __sanitizer_set_death_callback(vh_asan_death);
+    if (getenv("VH_WATCHDOG")) { /* executions that are slow by design (files of hundreds of megabytes) */
+        watchdog_secs = (unsigned)atoi(getenv("VH_WATCHDOG"));
+    }
     if (watchdog_secs) {
         alarm(watchdog_secs);
     }
+}
+
+/* the harness's own number <-> text conversions must not follow the process locale under test (VH_SETLOCALE) */
+static locale_t vh_c_locale(void) {
+    static locale_t c;
+    if (!c) {
+        c = newlocale(LC_ALL_MASK, "C", (locale_t)0);
+    }
+    return c;
+}
+static int vh_snprintf_c(char *buf, size_t n, const char *fmt, double d) {
+    locale_t old = uselocale(vh_c_locale());
+    int r = snprintf(buf, n, fmt, d);
+    uselocale(old);
+    return r;
+}
+static double vh_strtod_c(const char *s) {
+    locale_t old = uselocale(vh_c_locale());
+    double d = strtod(s, NULL);
+    uselocale(old);
+    return d;
 }
 
 /* ------------------------------------------------------------------ script reader */
@@ -299,12 +335,33 @@ static size_t vh_block_size_raw(void *p) {
     struct vh_blk *b = p ? vh_tab_find(p) : NULL;
     return b ? b->n : (size_t)-1;
 }
+/* Blocks of a gigabyte and more are address space only (mmap, nothing reserved): a request of 4 GiB + 100 bytes is an
+ * ordinary call on a 64-bit machine, but filling or scanning it is not something 16 harnesses can do at once.  Callers
+ * touch the first and the last VH_EDGE bytes of such a block. */
+#define VH_HUGE ((size_t)1 << 30)
+#define VH_EDGE ((size_t)4096)
+static void *vh_huge_map(size_t n) {
+    void *p = mmap(NULL, n, PROT_READ | PROT_WRITE, MAP_PRIVATE | MAP_ANONYMOUS | MAP_NORESERVE, -1, 0);
+    if (p == MAP_FAILED) {
+        fprintf(stderr, "vh: cannot map %zu bytes of address space\n", n);
+        _exit(98);
+    }
+    return p;
+}
 static void *vh_acq(struct aws_allocator *a, size_t n) {
     (void)a;
     if (vh_alloc_point) {
         vh_alloc_point();
     }
     void *p = NULL;
+    if (n >= VH_HUGE) {
+        p = vh_huge_map(n);
+        memset(p, 0xA5, VH_EDGE);
+        memset((uint8_t *)p + n - VH_EDGE, 0xA5, VH_EDGE);
+        vh_tab_put(p, n);
+        vh_total_acquires++;
+        return p;
+    }
 #ifndef VS_TSAN /* recycling bypasses free/malloc, which is where the race detector learns that a block changed hands */
     if (vh_recycle) {
         for (int i = vh_nrcy - 1; i >= 0; --i) {
@@ -343,6 +400,9 @@ static void vh_note_release(void *p) {
     }
     int z = 1;
     for (size_t i = 0; i < b->n; ++i) {
+        if (b->n >= VH_HUGE && i == VH_EDGE) {
+            i = b->n - VH_EDGE; /* only the edges of an address-space-only block are looked at */
+        }
         if (((uint8_t *)p)[i]) {
             z = 0;
             break;
@@ -368,6 +428,10 @@ static void vh_rel(struct aws_allocator *a, void *p) {
     }
     size_t n = vh_block_size_raw(p);
     vh_note_release(p);
+    if (n != (size_t)-1 && n >= VH_HUGE) {
+        munmap(p, n);
+        return;
+    }
     if (vh_give_page_block && n != (size_t)-1 && vh_give_page_block(p)) {
         return;
     }
@@ -388,14 +452,25 @@ static void *vh_realloc(struct aws_allocator *a, void *old, size_t oldn, size_t 
     if (old) {
         struct vh_blk *b = vh_tab_find(old);
         size_t c = b ? b->n : 0;
-        memcpy(p, old, c < newn ? c : newn);
+        c = c < newn ? c : newn;
+        if (c >= VH_HUGE) { /* the edges of what is kept, see VH_HUGE */
+            memcpy(p, old, VH_EDGE);
+            memcpy((uint8_t *)p + c - VH_EDGE, (uint8_t *)old + c - VH_EDGE, VH_EDGE);
+        } else {
+            memcpy(p, old, c);
+        }
         vh_rel(a, old);
     }
     return p;
 }
 static void *vh_calloc(struct aws_allocator *a, size_t k, size_t n) {
     void *p = vh_acq(a, k * n);
-    memset(p, 0, k * n);
+    if (k * n >= VH_HUGE) {
+        memset(p, 0, VH_EDGE); /* the rest is untouched zero pages */
+        memset((uint8_t *)p + k * n - VH_EDGE, 0, VH_EDGE);
+    } else {
+        memset(p, 0, k * n);
+    }
     return p;
 }
 static struct aws_allocator vh_allocator = {
